@@ -2127,4 +2127,47 @@ example : guardOK X.ops (scaledOf X.ops ⟨.fin 1, 1, .fin 1, .fin 0, false⟩ [
     ⟨.fin 1, 1, .fin 1, .fin 0, false⟩ [X.pinf, .fin 0] (by simp) (by decide)
     ⟨by decide, by decide, by decide⟩ [⟨0, .fin 0⟩] (by rfl)).2.2.1
 
+/-! ### round 7: the capstone for the weighted path -/
+
+/-- **C18 for one weighted call of the code in /repo on an IEEE-like carrier — two contracts left.**
+    Relativised order laws and the named IEEE laws (all instantiated on the witness carrier with NaN
+    and ±Inf); NaN-free logits; a finite positive `max(temp, 1e-7)`.  If `Sample` returns `id`, then
+    `id` is inside the vocabulary and fewer than `k` logits are strictly larger; and if the run's
+    `softmax` kept its contract (`softmaxOK`) and no NaN was compared (`runGood`) — the only two
+    per-run hypotheses left — its logit is not `-Inf` and it is the id of a member of
+    `minP (topP (softmax (temperature (shift (topK tokens)))))`. -/
+theorem sample_admissible_lawful {o : Ops α} (h : OrdLawsOn o) (ha : ArithLawsOn o) (hb : BeqLawOn o)
+    (hs : ShiftLawsOn o) (hsc : ScaleLawsOn o) (hrefl : ∀ a, o.isNaN a = false → o.beq a a = true)
+    (P : Params α) (r : α) (logits : List α) (id : Nat) (ht : o.beq P.temp o.zero = false)
+    (hpos : posFinite o (fmax o P.temp o.tempFloor)) (hn : noNaN o logits = true)
+    (hS : Sample o true P r logits = .ok id) :
+    id < logits.length ∧
+    (∃ v, logits[id]? = some v ∧
+      ((mkTokens logits).filter (fun x => o.lt v x.val)).length <
+        (if P.topK ≥ (logits.length : Int) ∨ P.topK ≤ 0 then logits.length else P.topK.toNat)) ∧
+    ∃ L1, shiftMax o (topK o P.topK (mkTokens logits)) = .ok L1 ∧
+    (runGood o P r L1 = true →
+     softmaxOK o (scaledOf o P L1) (softmaxVals o (scaledOf o P L1)) = true →
+     (∃ v, logits[id]? = some v ∧ o.beq v o.negInf = false) ∧
+     ∃ f, minP o P.minP (topP o P.topP (probsOf o P L1)) = .ok f ∧ f <+: probsOf o P L1 ∧
+       ∃ x ∈ f, x.id = id) := by
+  have hne : logits ≠ [] := by
+    intro e; rw [e] at hS; cases hS
+  refine ⟨index_in_range o true P r logits id hS, sample_in_topk_on h true P r logits id ht hn hS, ?_⟩
+  obtain ⟨L1, hsm, hrest⟩ := sample_admissible_fixed_on h ha hb P r logits id ht hS
+  refine ⟨L1, hsm, fun hrg hsoft => ?_⟩
+  obtain ⟨_, c1, c2, c3⟩ := shift_scale_contracts_of_laws h hb hs hsc hrefl P logits hne hn hpos L1 hsm
+  exact hrest hrg c2 c1 c3 hsoft
+
+/-- instantiation on the carrier with NaN (former F18 input, heap branch): the conclusion for token 0 -/
+example : ∃ v, [X.pinf, .fin 0][0]? = some v ∧ X.ops.beq v X.ops.negInf = false := by
+  obtain ⟨_, _, L1, hsm, himp⟩ := sample_admissible_lawful xLawsOn xArithLawsOn xBeqLawOn xShiftLawsOn xScaleLawsOn
+    xBeqRefl ⟨.fin 1, 1, .fin 1, .fin 0, false⟩ (.fin 0) [X.pinf, .fin 0] 0 (by decide)
+    ⟨by decide, by decide, by decide⟩ (by decide) (by rfl)
+  have e : L1 = [⟨0, .fin 0⟩] := by
+    have : shiftMax X.ops (topK X.ops 1 (mkTokens [X.pinf, .fin 0])) = .ok [⟨0, .fin 0⟩] := by rfl
+    rw [this] at hsm; injection hsm with hsm; exact hsm.symm
+  subst e
+  exact (himp (by decide) (by decide)).1
+
 end OllamaVerif.C18
